@@ -98,6 +98,18 @@ def family_mapping(rnd, tier):
                     n += 1
                     out.append(SC("map-%s-%s-%s-%d" % (tname, dname, "".join(sorted(flags)) or "plain", n),
                                   src + dst + [E("by", "file", "F6")], [sp], dsp, cls="mapping", **flags))
+    # re-copies over an earlier copy with numbered / auto backups (some files already have backups, with gaps)
+    for bmode in ("numbered", "auto"):
+        for tname in ("flat", "nested"):
+            shape = SRC_TREES[tname]
+            older = dest_states(shape)["earlier"]
+            extra_b = [E("d/s/a.~3~", "file", "G7"), E("d/s/a.~1~", "file", "G8")]
+            n += 1
+            out.append(SC("map-backup-%s-%s-%d" % (bmode, tname, n), tree("s", shape) + older + extra_b + [E("by", "file", "F6")], ["s"], "d",
+                          extra=["--backup", bmode], cls="mapping"))
+        n += 1
+        out.append(SC("map-backup-%s-file-%d" % (bmode, n), [E("f", "file", "F1"), E("d", "file", "G1"), E("d.~2~", "file", "G2")], ["f"], "d", r=False,
+                      extra=["--backup", bmode], cls="mapping"))
     # single files, two sources, earlier-copy with -T (re-copy over the same tree)
     for dname in ("absent", "emptydir", "unrelated", "file"):
         dst = dest_states({})[dname]
@@ -368,11 +380,23 @@ def family_random(rnd, count):
     return out
 
 # ------------------------------------------------------------------ model-side scenario record
+import re as _re
+_BAK = _re.compile(r"^(.*)\.~(\d+)~$")
+
 def model_record(sc):
     keep = ("id", "r", "T", "n", "L")
     m = {k: sc[k] for k in keep}
     m["bad"] = sc.get("cls", "") in ("reject-opt", "reject-glob")
-    m["fs0"] = [{"p": e["p"], "k": e["k"], "c": e["c"], "lt": e["lt"], "h": e["h"], "g": 0} for e in sc["fs0"]]
+    def bak(name):
+        mm = _BAK.match(name)
+        if mm and len(mm.group(2)) < 9:
+            return mm.group(1), int(mm.group(2))
+        return "", 0
+    m["fs0"] = [{"p": e["p"], "k": e["k"], "c": e["c"], "lt": e["lt"], "h": e["h"], "g": 0, "bb": bak(e["p"][-1])[0], "bn": bak(e["p"][-1])[1]} for e in sc["fs0"]]
+    ex = sc.get("extra", [])
+    m["bk"] = ex[ex.index("--backup") + 1] if "--backup" in ex and sc["n"] is False else "none"
+    if m["bk"] == "off":
+        m["bk"] = "none"
     m["sources"] = [{"norm": a["norm"], "trail": a["trail"]} for a in sc["sources"]]
     m["dest"] = {"norm": sc["dest"]["norm"], "trail": sc["dest"]["trail"]}
     return m
